@@ -105,7 +105,7 @@ def get_member(obj, member: 'IdentifierToken'):
         raise ParseError(f"member name expected, instead found {member}", member.offset)
     if member.name.startswith('_'):
         raise ParseError(f"Cannot read protected and private member variables: {obj}.{member.name}", member.offset)
-    if isinstance(obj, INTROSPECTION_TYPES):
+    if issubclass(type(obj), INTROSPECTION_TYPES):  # not isinstance(): that falls back to reading obj.__class__
         # generators, frames, code objects, etc. lead to builtins, globals and locals through public names
         # (e.g., `gi_frame.f_builtins`), which would defeat both the underscore rule and the whitelist of builtins
         raise ParseError(f"Cannot read members of interpreter objects: .{member.name}", member.offset)
@@ -119,7 +119,7 @@ def get_item(obj, key):
     :obj:`key` (``__origin__``, ``__qualname__``, ``__module__``, ``__typing_subst__``), so it is refused.
 
     """
-    if isinstance(obj, type):
+    if issubclass(type(obj), type):  # not isinstance(): that falls back to reading obj.__class__
         raise TypeError("a type is not subscriptable in an expression")
     return obj[key]
 
